@@ -1,6 +1,11 @@
 package recgen
 
-import "reflect"
+import (
+	"math"
+	"reflect"
+)
+
+func fromBits(b uint64) float64 { return math.Float64frombits(b) }
 
 // Two motifs that the unbiased walk reaches too rarely (found through a seeded change that left
 // the elements hidden by a shrink un-relinked when the backing array is reallocated):
@@ -202,4 +207,70 @@ func (g *gen) quietDeepTouch(rec reflect.Value, ty *Type) bool {
 		return true
 	}
 	return false
+}
+
+// ---- float twins -----------------------------------------------------------------------------
+//
+// Two frozen values of a dictionary-struct type that differ ONLY in the bit pattern of one float
+// (+0 / -0, two NaN payloads). The first is assigned now, the second when the field is visited
+// again: the struct dictionary of the encoder looks values up with Cmp<Struct>, which must tell
+// them apart (found through a seeded change that made Float64Compare the numeric comparison).
+
+// floatPlant returns the calls that plant the float bits x at one fixed site of a value of type
+// t, or nil when the type has no such site (a float array field, or a multimap field whose value
+// is a oneof with a float64 alternative).
+func floatPlant(t *Type, x float64) []*Call {
+	if t == nil || t.Def == nil {
+		return nil
+	}
+	for _, f := range t.Def.Fields {
+		n := Cap(f.Name)
+		if f.Optional {
+			continue
+		}
+		if f.Type.Kind == KArray && f.Type.Elem != nil && f.Type.Elem.Kind == KFloat64 && f.Type.Elem.Enum == "" {
+			return []*Call{{Nav: []NavStep{{n, -1}}, M: "CopyFromSlice", Args: []any{[]float64{x, 1.5}}, Tag: 'L', Ty: f.Type}}
+		}
+	}
+	for _, f := range t.Def.Fields {
+		n := Cap(f.Name)
+		if f.Optional || f.Type.Kind != KMultimap || f.Type.Def == nil {
+			continue
+		}
+		kt, vt := f.Type.Def.Key, f.Type.Def.Val
+		if kt.Kind != KString || vt.Kind != KOneof || vt.Def == nil {
+			continue
+		}
+		for i, a := range vt.Def.Fields {
+			if a.Type.Kind == KFloat64 {
+				an := Cap(a.Name)
+				mm := []NavStep{{n, -1}}
+				return []*Call{
+					{Nav: mm, M: "EnsureLen", Args: []any{1}, Tag: 'L', Ty: f.Type},
+					{Nav: mm, M: "SetKey", Args: []any{0, "twin"}, Idx: true},
+					{Nav: append(append([]NavStep(nil), mm...), NavStep{"Value", 0}), M: "Set" + an, Args: []any{x}, Tag: 'T', Alt: i + 1, Ty: vt, Get: an},
+				}
+			}
+		}
+	}
+	return nil
+}
+
+// floatTwins builds the two specs; ok=false when the type has no float site.
+func (g *gen) floatTwins(t *Type, pt reflect.Type, depth int, stack map[*Def]int) (a, b *ObjSpec, ok bool) {
+	pairs := [][2]uint64{
+		{0, 1 << 63}, {1 << 63, 0},
+		{0x7ff8000000000001, 0x7ff8000000000002}, {0x7ff8000000000000, 0xfff8000000000000},
+	}
+	p := pairs[g.r.Intn(len(pairs))]
+	pa, pb := floatPlant(t, fromBits(p[0])), floatPlant(t, fromBits(p[1]))
+	if pa == nil {
+		return nil, nil, false
+	}
+	base := g.newObject(t, pt, false, depth, stack)
+	mk := func(plant []*Call) *ObjSpec {
+		g.st.nextID++
+		return &ObjSpec{ID: g.st.nextID, Def: t.Def, Frozen: true, Calls: append(append([]*Call(nil), base.Calls...), plant...)}
+	}
+	return mk(pa), mk(pb), true
 }
